@@ -108,6 +108,10 @@ def layouts(tier: str) -> list[dict]:
     add("api-reversed-fields", [_reg("r0", "R0", 0, 32, [_bf("r0f0", "F0", 8), _bf("r0f1", "F1", 16), _bf("r0f2", "F2", 8)])],
         depth_q=2, depth_t=3)
     L[-1]["api"] = {"reverse": ["r0"]}
+    # widths that are not 2^n bytes (24 and 48 bits), byte-reversed: width-from-magnitude helpers round to 2^n bytes by default
+    add("api-reversed-w48-w24", [_reg("r0", "R0", 0, 48, [_bf("r0f0", "F0", 8), _bf("r0f1", "F1", 40)]), _reg("r1", "R1", 8, 24, None)],
+        depth_q=2, depth_t=3)
+    L[-1]["api"] = {"reverse": ["r0", "r1"]}
     add("api-group-own-fields", copy.deepcopy(sub2), [{"uid": "g", "name": "G", "sub_regs": ["s0", "s1"]}], depth_q=2, depth_t=3)
     L[-1]["api"] = {"group_fields": {"g": [["GLOW", 0, 28], ["GX", 28, 8], ["GHIGH", 36, 28]]}}
     # fuse map (FuseRegisters / FuseRegister): the same register file plus lock views derived from a lock register
